@@ -39,6 +39,19 @@ CHECKS = {
             "DTLS 1.3 numbers are recovered with the sender's own key material through library code; race reports are verdicts only when "
             "they touch sequence-number/epoch state, others are listed as observations.",
             "DESIGN.md §4 C09"),
+    "C11": ("exploration",
+            "runtime monitoring against an independent intersection model: generated pairs of option sets, negotiated values read "
+            "from the captured hello/key-exchange/CertificateVerify/EncryptedExtensions bytes and from the API; refusal oracle over "
+            "both HandshakeContext results and the alert records on the wire",
+            "Pairs of option sets are drawn per dimension (version range, suite list, curves, signature schemes, key type / PSK, "
+            "EMS policy, SRTP, ALPN, CID) as identical / overlapping in one value with a different order / disjoint. When both sides "
+            "complete, version must be the highest common one and suite, group, signature scheme, EMS, SRTP, ALPN must lie in both "
+            "policies and in the captured offer; every answered extension must have been offered. When the model finds no common "
+            "value neither side may complete and an alert in a form valid for the version must be on the wire if a side was left "
+            "waiting. Held = no out-of-policy completion among the pairs drawn (distinct pairs and negotiated tuples in evidence).",
+            "The model is deliberately weaker than the library where the statement leaves latitude (SRTP/ALPN empty intersection, "
+            "server preference order, configurations the server rejects locally). A protected DTLS 1.3 alert is recognised by its size.",
+            "DESIGN.md §4 C11"),
     "C12": ("fault_enumeration",
             "runtime differential monitoring: the library's FragmentBuffer and fragmentHandshake against an independent byte-coverage "
             "reassembler over enumerated partitions, permutations and interleavings; end-to-end handshakes at tiny MTUs on the simnet",
